@@ -95,6 +95,10 @@ struct Built {
 }
 
 fn build(cfg: &BackendCfg, ops: &[Op], scratch: &Scratch) -> Built {
+    // every directory is built from the same logical instant, so its file names (micro-second
+    // timestamps) do not depend on what this process built before: a chunk worker that builds only
+    // its own directory and a replay see byte-identical names
+    vcore::shimctl::ctl(vcore::shimctl::CMD_CLOCK_SET_NS, 1_700_000_000_000_000_000, 0);
     let dir = scratch.path.join("c13src");
     let _ = std::fs::remove_dir_all(&dir);
     let mut b = cfg.open_fresh(&dir).expect("open");
@@ -275,9 +279,17 @@ fn all_faults(b: &Built, tier: &str) -> Vec<Fault> {
     v
 }
 
-pub fn total_faults(tier: &str) -> usize {
+/// Per directory: (number of faults, description). Computed once by the parent and handed to the
+/// chunk workers (C13_DIR_FAULTS) so that a worker only builds the directories its range touches.
+pub fn dir_table(tier: &str) -> Vec<(usize, Value)> {
     let scratch = Scratch::new("c13count");
-    directories(tier).iter().map(|(_, cfg, ops)| all_faults(&build(cfg, ops, &scratch), tier).len()).sum()
+    directories(tier)
+        .iter()
+        .map(|(name, cfg, ops)| {
+            let b = build(cfg, ops, &scratch);
+            (all_faults(&b, tier).len(), json!({"name": name, "files": b.image.iter().map(|(k, v)| (k.clone(), v.len())).collect::<BTreeMap<_, _>>(), "docs": b.dump.len()}))
+        })
+        .collect()
 }
 
 pub fn worker(lo: usize, hi: usize, skip: &[usize], tier: &str) {
@@ -285,11 +297,22 @@ pub fn worker(lo: usize, hi: usize, skip: &[usize], tier: &str) {
     let mut base = 0usize;
     let mut st = Stats::default();
     let mut samples = Vec::new();
-    let mut dirs_meta = Vec::new();
-    for (name, cfg, ops) in directories(tier) {
+    let counts: Option<Vec<usize>> = std::env::var("C13_DIR_FAULTS").ok().map(|s| s.split(',').filter_map(|x| x.parse().ok()).collect());
+    for (di, (name, cfg, ops)) in directories(tier).into_iter().enumerate() {
+        if let Some(n) = counts.as_ref().and_then(|c| c.get(di)) {
+            if base >= hi || base + n <= lo {
+                base += n;
+                continue;
+            }
+        }
         let b = build(&cfg, &ops, &scratch);
-        dirs_meta.push(json!({"name": name, "files": b.image.iter().map(|(k, v)| (k.clone(), v.len())).collect::<BTreeMap<_, _>>(), "docs": b.dump.len()}));
         let faults = all_faults(&b, tier);
+        if let Some(n) = counts.as_ref().and_then(|c| c.get(di)) {
+            if *n != faults.len() {
+                eprintln!("C13 worker: directory {name} has {} faults here, {n} in the parent (machinery error)", faults.len());
+                std::process::exit(2);
+            }
+        }
         let dir_base = base;
         base += faults.len();
         if dir_base >= hi || base <= lo {
@@ -372,7 +395,7 @@ pub fn worker(lo: usize, hi: usize, skip: &[usize], tier: &str) {
     }
     vcore::par::worker_emit(&json!({
         "faults": st.faults, "panicked": st.panicked, "refused": st.refused, "exact": st.exact, "excluded_tail": st.excluded_tail,
-        "violations": st.violations.to_json(), "outcomes": st.outcomes.iter().collect::<Vec<_>>(), "samples": samples, "dirs": dirs_meta,
+        "violations": st.violations.to_json(), "outcomes": st.outcomes.iter().collect::<Vec<_>>(), "samples": samples,
     }));
 }
 
@@ -387,12 +410,11 @@ pub fn run(tier: &str, replay: Option<&str>) -> i32 {
     let mut ev = vcore::evidence::Evidence::new("C13", tier, "fault_enumeration");
     let mut rep = vcore::findings::Reporter::new("C13");
     let t0 = std::time::Instant::now();
-    let total = total_faults(tier);
-    let t1 = t0.elapsed();
+    let table = dir_table(tier);
+    let total: usize = table.iter().map(|(n, _)| *n).sum();
+    std::env::set_var("C13_DIR_FAULTS", table.iter().map(|(n, _)| n.to_string()).collect::<Vec<_>>().join(","));
+    let _ = t0;
     let (res, aborted) = vcore::par::run_chunked(total, 400);
-    if std::env::var("C13_TIMING").is_ok() {
-        eprintln!("C13 timing: count {:?}, chunks {:?}", t1, t0.elapsed());
-    }
     let mut tot: BTreeMap<&str, u64> = BTreeMap::new();
     let mut outcomes: BTreeSet<u64> = BTreeSet::new();
     let mut samples = Vec::new();
@@ -441,7 +463,7 @@ pub fn run(tier: &str, replay: Option<&str>) -> i32 {
     ev.set("distinct_outcomes", outcomes.len() as u64);
     ev.set("faults_where_the_process_aborted", aborted.len() as u64);
     ev.set("aborted_fault_indices", aborted.iter().take(100).map(|x| *x as u64).collect::<Vec<_>>());
-    ev.set("directories", res[0]["dirs"].clone());
+    ev.set("directories", table.iter().map(|(_, m)| m.clone()).collect::<Vec<_>>());
     ev.assume("a fault on which the start-up process aborts (e.g. allocation failure on a corrupted size field) counts as a refusal to start: the property forbids starting successfully with damaged state, which an abort does not do");
     ev.assume("single faults only; directories come from a fixed list of histories, not all histories");
     ev.assume("the torn-tail exclusion is computed from the engine's own behaviour on plain truncations of the newest segment of the intact directory");
